@@ -3,7 +3,7 @@
      Commands._callCommand / callCommand     (src/callbacks.py:1326-1389)
      the gating converters and the exception-catching contexts, Spec.__call__,
      the wrapper's state.errored test        (src/commands.py:503-514,599-658,857-1128)
-     DefaultCapabilities.setValue            (src/ircdb.py:1321-1332)
+     DefaultCapabilities.setValue            (src/ircdb.py:1321-1334)
      ircdb.checkIgnored                      (src/ircdb.py:1167-1201)
      PluginMixin.__call__ + the decision prefix of Owner.doPrivmsg
                                              (src/callbacks.py:1431-1444, plugins/Owner/plugin.py:230-268)
@@ -293,11 +293,12 @@ Definition callCommand_trace (d : db) (chan : option str) (plugin canon : str) (
 Definition cs_of_list (v : list str) : res cset :=
   fold_left (fun r c => do acc <- r; cs_add acc c) v (Ok []).
 
-(* the new value; Raise = CapabilitySet(v) raised, the old value stays *)
+(* the new value; Raise = CapabilitySet(v) raised, the old value stays.
+   `'-owner' not in set(self.value)`: plain membership among the stored
+   (folded) elements, not CapabilitySet.__contains__ *)
 Definition setValue (v : list str) (allowDefaultOwner : bool) : res cset :=
   do cs <- cs_of_list v;
-  do b <- cs_contains cs ANTIOWNER;           (* '-owner' not in self.value : CapabilitySet.__contains__ *)
-  if negb b && negb allowDefaultOwner then cs_add cs ANTIOWNER else Ok cs.
+  if negb (smem ANTIOWNER cs) && negb allowDefaultOwner then cs_add cs ANTIOWNER else Ok cs.
 
 Definition setValues (init : cset) (vs : list (list str * bool)) : cset :=
   fold_left (fun cur va => match setValue (fst va) (snd va) with Ok cs => cs | Raise _ => cur end) vs init.
